@@ -39,6 +39,13 @@ func replayEvents(events []Event) (*Graph, error) {
 			if err != nil {
 				return nil, err
 			}
+			// Legacy items were recorded without a title: derive it once, from
+			// the body they were created with. Later title/body updates then
+			// apply verbatim, exactly as they do for any other item (and as
+			// they do after compaction has rewritten the item with its title).
+			if strings.TrimSpace(data.Title) == "" {
+				data.Title, data.Body = deriveTitleAndBodyFromLegacy(data.Body)
+			}
 			task := &Task{
 				ID:        data.ID,
 				UUID:      data.UUID,
